@@ -120,6 +120,15 @@ def shard_main(args):
                 if "run" in part:
                     # non-Hypothesis part (exhaustive enumeration etc.)
                     part["run"](stats, seed, shard, nshards)
+                elif "machine" in part:
+                    from hypothesis.stateful import run_state_machine_as_test
+                    per = max(1, -(-part["examples"] // nshards))
+                    cls = part["machine"](stats)
+                    st_ = settings(max_examples=per, database=None, deadline=None, derandomize=False,
+                                   report_multiple_bugs=False, suppress_health_check=list(HealthCheck),
+                                   phases=[Phase.generate, Phase.shrink], print_blob=False,
+                                   stateful_step_count=part.get("steps", 30))
+                    run_state_machine_as_test(hypothesis.seed(seed * 64 + shard)(cls), settings=st_)
                 else:
                     n = part["examples"]
                     per = max(1, -(-n // nshards))
@@ -228,6 +237,10 @@ def hyp_part(name, make, examples, **kw):
     d = {"name": name, "make": make, "examples": examples}
     d.update(kw)
     return d
+
+
+def machine_part(name, machine, examples, steps=30):
+    return {"name": name, "machine": machine, "examples": examples, "steps": steps}
 
 
 def run_part(name, run):
